@@ -489,6 +489,9 @@ func parseWire(conn *simnet.Conn, calls []*WCall) (segs []wseg, bad string) {
 			return segs, fmt.Sprintf("byte at wire offset %d (0x%02x) starts no known payload", pos, wire[pos])
 		}
 		c := calls[id]
+		if len(c.Want) == 0 {
+			return segs, fmt.Sprintf("byte at wire offset %d (0x%02x) belongs to no payload (the call with that identifier wrote zero bytes)", pos, wire[pos])
+		}
 		if pos+len(c.Want) > len(wire) {
 			return segs, fmt.Sprintf("payload of call %s is cut short at wire offset %d (wire ends at %d)", c, pos, len(wire))
 		}
